@@ -345,7 +345,8 @@ Lemma ev_method ctx a x name args ns s :
   ev_list ctx args s1 (fun vs s2 =>
   match ns, v with
   | true, VNil => Done VNil s2
-  | _, _ => lift (aloc a) s2 (fetch_fn fe v name) (fun id => do_call fe (aloc a) false id v vs s2)
+  | _, _ => if ns && fetch_fn_zero v name then Done VNil s2
+            else lift (aloc a) s2 (fetch_fn fe v name) (fun id => do_call fe (aloc a) false id v vs s2)
   end)).
 Proof. reflexivity. Qed.
 
@@ -895,6 +896,10 @@ Lemma method_match_agree (ns : bool) (v : value) s A B :
          (match ns, v with true, VNil => Done VNil s | _, _ => B end).
 Proof. intros H. destruct ns; [destruct v|]; auto using ragree_refl. Qed.
 
+Lemma zero_fn_agree (b : bool) s A B :
+  ragree A B -> ragree (if b then Done VNil s else A) (if b then Done VNil s else B).
+Proof. intros H. destruct b; auto using ragree_refl. Qed.
+
 Ltac ra1 :=
   first [ apply ragree_stop_l
         | apply ragree_stop_r
@@ -1126,7 +1131,7 @@ Proof.
     + intros x Hx. apply IH. pose proof (lsize_in _ _ Hx). lia.
     + intros j x k N C. apply (arg_sites_in true nm1 args1 0 j x k N C).
     + intros j x k N C. apply (arg_sites_in true nm1 args2 0 j x k N C).
-    + intros vs1 vs2 s' R. apply method_match_agree. apply ragree_lift_eq. intros id F.
+    + intros vs1 vs2 s' R. apply method_match_agree. apply zero_fn_agree. apply ragree_lift_eq. intros id F.
       apply (call_agree fe _ _ _ _ _ _ _ _ _ _ _ _ Hfast R); [| |reflexivity].
       * intros j k sg Hin Hsg. rewrite Forall_forall in Sa1.
         apply (Sa1 _ Hin v id sg); [intros Hm; discriminate Hm|exact F|exact Hsg].
